@@ -171,6 +171,7 @@ def c11_vocab(run):
     rf_vocab.rf75(run)
     rf_vocab.rf82(run)
     run.min_instances('RF82', 40)
+    rf_bounds.rf88(run)
 
 
 def c10_vocab(run):
@@ -218,6 +219,7 @@ def c12_rf13(run):
     run.min_instances('RF13w', 257)
     rf_bounds.rf13h(run)
     run.min_instances('RF13h', 3)
+    rf_bounds.rf88(run)
     rf_bounds.rf13_exits(run)
     run.min_instances('RF13e', 8)
     rf_bounds.rf13c(run)
